@@ -242,8 +242,10 @@ func (g *G) Receiver(z string, p, m int) string {
 	default:
 		g.Emit(M{"op": "New", "z": z})
 	}
-	g.Emit(M{"op": "SetPrec", "z": z, "p": p})
+	// mode first: SetMode resets the accuracy, SetPrec (when it rounds) leaves Below/Above behind, so
+	// receivers also carry stale inexact accuracies into the operation under test
 	g.Emit(M{"op": "SetMode", "z": z, "m": m})
+	g.Emit(M{"op": "SetPrec", "z": z, "p": p})
 	return z
 }
 
